@@ -32,6 +32,14 @@ func (x *Exec) prepareCall(fr *frame, call *ssa.CallCommon) (Value, []Value) {
 }
 
 func (x *Exec) doCall(fr *frame, call *ssa.CallCommon, in *ssa.Call) Value {
+	if call.IsInvoke() {
+		if rt, ok := fr.get(call.Value).(ReflectT); ok {
+			if call.Method.Name() == "Kind" {
+				return x.ts.BV(64, kindOf(rt.T))
+			}
+			x.unsupported("reflect.Type method " + call.Method.Name())
+		}
+	}
 	fn, args := x.prepareCall(fr, call)
 	return x.callValue(fn, args, fr)
 }
